@@ -83,3 +83,9 @@ Proof. cbn [last_opt]. f_equal. apply last_cons_self. Qed.
 
 Lemma Forall2_len {A B} (R : A -> B -> Prop) l l' : Forall2 R l l' -> length l = length l'.
 Proof. induction 1; cbn; congruence. Qed.
+
+Lemma exists_last_or_nil {A} (l : list A) : l = [] \/ exists l' x, l = l' ++ [x].
+Proof.
+  destruct l as [|a l]; [left; reflexivity|]. right.
+  destruct (@exists_last A (a :: l)) as (l' & x & E); [discriminate|]. eauto.
+Qed.
